@@ -735,6 +735,17 @@ def check(ctx):
     ctx.ob('R9.3-rates-after-rules', 'Lineage', not bad and pths, sl.where,
            'every iteration of the lineage loop applies the rules, then recomputes all propensities from the current state, volume and time, then sums them, before anything is drawn',
            '; '.join(sorted(set(bad))[:2]))
+    # rules with frequency dt (and ODE rules) fire once per grid step: in the volume simulators the rule step is the pass on which the
+    # volume clock wins, so the pairing of that clock with the simulation time (C11 R11.2-pairing, R11.2-volume-clock) is what makes
+    # them fire every dt - re-emitted here
+    from . import c11
+    sub = SubCtx(ctx)
+    for key_ in ('VolumeSSASimulator', 'DelayVolumeSSASimulator'):
+        c11.check_loop(sub, key_)
+    c11.check_volume_clock(sub)
+    for rule, key, ok, where, what, detail in sub.got:
+        if rule in ('R11.2-pairing', 'R11.2-volume-clock'):
+            ctx.ob('R9.4-rule-step', 'C11/%s/%s' % (rule, key), ok, where, what, detail)
     ctx.floor('R9.3-rates-after-rules', 13)
     ctx.floor('R9.1-firing-predicate', 2)
     ctx.floor('R9.2-operation', 5)
